@@ -296,7 +296,7 @@ class Gen(object):
     def block(self, budget):
         rng = self.rng
         kinds = ['assign', 'string', 'print', 'file', 'gosub', 'ongosub', 'if', 'gotoskip', 'read', 'error',
-                 'locate', 'swapdef', 'random', 'array', 'recordtext', 'recordtext', 'sound']
+                 'locate', 'swapdef', 'random', 'array', 'recordtext', 'recordtext', 'sound', 'softerror']
         if self.depth < 2 and budget > 0:
             kinds += ['for', 'while', 'for', 'while']
         k = rng.choice(kinds)
@@ -421,6 +421,12 @@ class Gen(object):
         self.unit(self.rng.choice(['ERROR 5', 'A(11)=1', 'X=1/(Y%-Y%)', 'ERROR 77:PRINT "after-error"', 'T$=MID$(S$,0)',
                                    'Y%=32767:Y%=Y%+1:PRINT "ovf"', 'READ R,R$,R,R$,R,R$,R,R$,R,R$,R,R$']))
 
+    def b_softerror(self, _):
+        # floating-point errors that are handled softly unless ON ERROR GOTO (line 10, long before) is in force
+        self.unit(self.rng.choice(['X=K/(Q-Q)', 'D#=D#/0#:PRINT D#', 'X=1E+30:X=X*X', 'X=1.7E+38+1.7E+38', 'X=EXP(89+K)',
+                                   'D#=1D+30:D#=D#*D#*D#', 'X=10^(39+K)', 'X=VAL("1E"+STR$(40+K))', 'X=-K/(Q-Q):PRINT X',
+                                   'Y%=1/(Q-Q)']))
+
     def b_swapdef(self, _):
         self.unit(self.rng.choice(['DEF FNA(Z)=Z*2+K:PRINT FNA(3)', 'SWAP X,Q', 'DEF FNS$(Z$)=Z$+"!"+S$:T$=LEFT$(FNS$("f"),25)',
                                    'SWAP S$,T$']))
@@ -535,6 +541,27 @@ FIXED = [
      '50 X=X+1:PRINT PLAY(0);PLAY(1);PLAY(2)', '60 SOUND 300,.01,15,2', '70 PRINT "A";X',
      '80 PLAY "MBT32L1C.........D.........","MBT32L1E.........F........."', '90 PRINT PLAY(0)>0;PLAY(1)>0;PLAY(2)>0',
      '100 X=X+1', '110 SOUND 300,0', '120 NOISE 5,8,.01', '130 X=X+1', '140 SOUND OFF', '150 PRINT "@@DONE";X', '160 SYSTEM'],
+    # state armed BEFORE the suspension that is only exercised AFTER it
+    # - ON ERROR GOTO, then every error class: soft float errors (division by zero, overflow in * + EXP ^ VAL), integer
+    #   overflow and division by zero, hard errors; then ON ERROR GOTO 0 and a soft error handled without a trap
+    ['10 ON ERROR GOTO 500', '20 Z=0:B#=0:BIG=1E+30:I%=32767', '30 X=1/Z', '40 PRINT "x";X', '50 D#=2#/B#', '60 PRINT "d";D#',
+     '70 X=BIG*BIG', '80 X=BIG*BIG+BIG', '90 X=EXP(100)', '100 D#=1D+30:D#=D#*D#*D#', '110 PRINT X;D#',
+     '120 I%=I%+1', '130 J%=5\\Z', '140 J%=5 MOD Z', '150 X=10^50', '160 Q$="a":X=Q$+1', '170 X=SQR(-1)', '180 X=LOG(0)',
+     '190 DIM A(3):A(4)=1', '200 ERROR 200', '210 X=VAL("1E50")', '220 X=CINT(40000)', '230 X=-1/Z:PRINT X',
+     '240 ON ERROR GOTO 0', '250 X=1/Z:PRINT X', '260 PRINT "@@DONE";EC', '270 SYSTEM',
+     '500 EC=EC+1:PRINT "E";ERR;ERL;', '510 RESUME NEXT'],
+    # - DEFtype, OPTION BASE, RND seed, DATA pointer, KEY definitions, WIDTH/COLOR/VIEW PRINT, DEF FN, DEF SEG, open
+    #   GOSUB/FOR/WHILE frames
+    ['10 DEFINT I-K:DEFSTR S:DEFDBL D', '20 OPTION BASE 1:DIM T(3)', '30 RANDOMIZE 4711:ON ERROR GOTO 500', '40 READ A,B',
+     '50 KEY 1,"hello":KEY 3,"x"+CHR$(13)', '60 WIDTH 40:COLOR 3,1', '70 VIEW PRINT 5 TO 20', '80 DEF FNQ(X)=X*2+A', '90 DEF SEG=64',
+     '100 GOSUB 300', '110 KEY LIST', '120 PRINT CSRLIN;POS(0)', '130 WIDTH 80:VIEW PRINT', '140 PRINT "@@DONE";I;S;D;EC', '150 SYSTEM',
+     '300 FOR I=1 TO 2', '310 WHILE J<I', '320 J=J+1:K=7/2', '330 S="s"+STR$(K):D=1/3', '340 T(I)=K:T(0)=1', '350 WEND', '360 NEXT',
+     '370 READ C,S2$:PRINT C;S2$;INT(RND*1000);FNQ(B);PEEK(0)>=0;T(1);T(2)', '380 RETURN', '400 DATA 1,2,3,"four"',
+     '500 EC=EC+1:PRINT "E";ERR;ERL;', '510 RESUME NEXT'],
+    # - event traps switched on (and one stopped with a remembered trigger) before, keys pressed after
+    ['#keys=5:59,8:60,12:59,15:68,23:68', '10 ON KEY(1) GOSUB 200:KEY(1) ON', '20 ON KEY(2) GOSUB 300:KEY(2) ON:KEY(2) STOP', '25 ON KEY(10) GOSUB 400', '30 FOR I=1 TO 6', '40 X=X+1', '50 NEXT',
+     '60 KEY(2) ON', '70 X=X+1', '80 KEY(1) OFF:KEY(10) ON', '85 X=X+1', '90 PRINT "@@DONE";X;T1;T2;T3', '100 SYSTEM',
+     '200 T1=T1+1:PRINT "k1 at";I;X:RETURN', '300 T2=T2+1:PRINT "k2 at";I;X:RETURN', '400 T3=T3+1:RETURN'],
 ]
 
 # programs that stop at their own SYSTEM statements (suspended and resumed every time), with the uninterrupted twin
@@ -578,7 +605,14 @@ class Runner(object):
         self.lptdir = tempfile.mkdtemp(prefix='pcbv_c40l_')
         self.session = Session(output_streams=self.sink, input_streams=None, peek_values={}, max_files=8,
                                devices={'C': self.dir, 'LPT1': 'FILE:' + os.path.join(self.lptdir, 'LPT1.OUT')},
-                               current_device='C', **session_options(lines))
+                               current_device='C', **{k: v for k, v in session_options(lines).items() if k != 'keys'})
+        # '#keys=<executed line count>:<scancode>,...': key presses posted to the input queue when that many
+        # lines have been started (the same moments in the uninterrupted and in the resumed run)
+        self.keys = {}
+        for item in session_options(lines).get('keys', '').split(','):
+            if item:
+                at, _, scan = item.partition(':')
+                self.keys[int(at)] = int(scan)
         for l in lines:
             if l.startswith('#'):
                 continue
@@ -611,6 +645,10 @@ class Runner(object):
             self.lineseq.append(ln)
             if self.lines_run > LINE_LIMIT:
                 raise Runaway()
+            if self.lines_run in self.keys:
+                # before a quit signal of the same moment: a key that is in the queue when the session quits is
+                # lost with the queue, which is not what is being checked
+                session._impl.queues.inputs.put(signals.Event(signals.KEYB_DOWN, (u'', self.keys[self.lines_run], [])))
             if self.lines_run in schedule:
                 self.trace.append((self.lines_run, struct.unpack('<H', token[2:4])[0]))
                 session._impl.queues.inputs.put(signals.Event(signals.QUIT))
@@ -809,8 +847,14 @@ def scenario(ctx, lines, ref, schedule, mode, pending=None, base=None):
         r.close()
 
 
-def insert_system(rng, lines, linecount):
+def insert_system(rng, lines, linecount, lineseq=()):
     """the same program with a SYSTEM statement at a random statement boundary (before a statement of a body line)"""
+    # a key press posted while a line is started must reach the interpreter's event poll before the session quits (a key
+    # still in the input queue is lost with the queue): no SYSTEM on the lines at which the harness presses a key
+    keylines = set()
+    for item in session_options(lines).get('keys', '').split(','):
+        if item and int(item.partition(':')[0]) <= len(lineseq):
+            keylines.add(lineseq[int(item.partition(':')[0]) - 1])
     cand = []
     for i, l in enumerate(lines):
         if l.startswith('#'):
@@ -820,7 +864,7 @@ def insert_system(rng, lines, linecount):
             continue
         if rest.startswith('DATA'):
             continue
-        if 'SYSTEM' in rest or not 1 <= linecount.get(int(n), 0) <= 20:
+        if 'SYSTEM' in rest or not 1 <= linecount.get(int(n), 0) <= 20 or int(n) in keylines:
             continue
         cand.append(i)
     out = list(lines)
@@ -914,7 +958,7 @@ def resume_part(ctx):
             scenario(ctx, lines, ref, sched, 'quit-multi', pending)
         # S: SYSTEM statements inserted at statement boundaries (suspends every time one is reached)
         for _ in range(3 if ctx.quick else 12):
-            scenario(ctx, insert_system(rng, lines, ref['linecount']), ref, (), 'system', pending, base=lines)
+            scenario(ctx, insert_system(rng, lines, ref['linecount'], ref['lineseq']), ref, (), 'system', pending, base=lines)
         if len(pending) > 200:
             flush(ctx, pending, 'resume-pointer')
     flush(ctx, pending, 'resume-pointer')
